@@ -247,6 +247,12 @@ func (s *Serializer) writeSliceLength(l int, lenType SeriLengthPrefixType, errPr
 
 			return
 		}
+	case SeriLengthPrefixTypeAsUint64:
+		if err := binary.Write(&s.buf, binary.LittleEndian, uint64(l)); err != nil {
+			s.err = errProducer(err)
+
+			return
+		}
 	default:
 		panic(fmt.Sprintf("unknown slice length type %v", lenType))
 	}
@@ -831,6 +837,18 @@ func (d *Deserializer) readSliceLength(lenType SeriLengthPrefixType, errProducer
 		}
 		l = UInt32ByteSize
 		sliceLength = int(binary.LittleEndian.Uint32(d.src[d.offset : d.offset+UInt32ByteSize]))
+
+	case SeriLengthPrefixTypeAsUint64:
+		if l < UInt64ByteSize {
+			return 0, errProducer(ErrDeserializationNotEnoughData)
+		}
+		l = UInt64ByteSize
+		length := binary.LittleEndian.Uint64(d.src[d.offset : d.offset+UInt64ByteSize])
+		if length > math.MaxInt {
+			// can never be backed by data, and must not turn into a negative length
+			return 0, errProducer(ierrors.Wrapf(ErrDeserializationLengthInvalid, "denoted length %d does not fit into an int", length))
+		}
+		sliceLength = int(length)
 
 	default:
 		panic(fmt.Sprintf("unknown slice length type %v", lenType))
